@@ -147,6 +147,24 @@ def _refine(ctx, f, test, env, pol):
     if isinstance(t, ast.Compare) and len(t.ops) == 1:
         a, b, op = t.left, t.comparators[0], type(t.ops[0])
         flip = {ast.Lt: ast.Gt, ast.Gt: ast.Lt, ast.LtE: ast.GtE, ast.GtE: ast.LtE, ast.Eq: ast.Eq, ast.NotEq: ast.NotEq}
+        # x + c OP k  ==  x OP k - c   (and c + x, x - c)
+        def shift(e):
+            e = unawait(e)
+            if isinstance(e, ast.BinOp) and isinstance(e.op, (ast.Add, ast.Sub)):
+                for x, y, sign in ((e.left, e.right, 1), (e.right, e.left, 1) if isinstance(e.op, ast.Add) else (None, None, 0)):
+                    if x is None:
+                        continue
+                    kx = varkey(unawait(x))
+                    okc, cv = ctx.fold.try_eval(y, f.mod, {})
+                    if kx and kx in env and okc and isinstance(cv, int) and not isinstance(cv, bool):
+                        return x, (cv if isinstance(e.op, ast.Add) else -cv)
+            return None
+        delta = 0
+        sa, sb = shift(a), shift(b)
+        if sa is not None and not (varkey(unawait(b)) in env if varkey(unawait(b)) else False):
+            a, delta = sa
+        elif sb is not None and not (varkey(unawait(a)) in env if varkey(unawait(a)) else False):
+            b, delta = sb
         ka, kb = varkey(unawait(a)), varkey(unawait(b))
         if not (ka and ka in env) and kb and kb in env and op in flip:
             a, b, op, ka = b, a, flip[op], kb
@@ -154,7 +172,7 @@ def _refine(ctx, f, test, env, pol):
             lo, hi = env[ka]
             r = _arith(ctx, f, b, env)
             if r is not None and r[0] == r[1] and r[0] not in (INF, -INF):
-                k = r[0]
+                k = r[0] - delta
                 if not pol:
                     op = {ast.Lt: ast.GtE, ast.Gt: ast.LtE, ast.LtE: ast.Gt, ast.GtE: ast.Lt, ast.Eq: ast.NotEq, ast.NotEq: ast.Eq}.get(op)
                 new = (lo, hi)
